@@ -364,7 +364,7 @@ def _with_recorded(case, obs):
 
 def _c_name(case):
     """the linker's own name as an identifier of the model: an integer name as given, the default '_' as an id no submodel has"""
-    return case['name'] if case.get('name') is not None else 999999
+    return case["name"] if case.get("name") is not None else 4000
 
 
 def c_case(case, obs):
